@@ -25,10 +25,12 @@ INT_CANON = re.compile(r"-?[0-9]+\Z")
 FLOAT_CANON = re.compile(r"-?(?:[0-9]+(?:\.[0-9]*)?|\.[0-9]+)(?:[eE][-+]?[0-9]+)?\Z")
 FLOAT_SPECIAL = re.compile(r"([+-]?)(nan|inf|infinity)\Z", re.I)
 TIME_SHAPE = re.compile(r"([0-9]{2}):([0-9]{2}):([0-9]{2})(?:\.([0-9]{3}|[0-9]{6}))?\Z")
-TIME_LENIENT = re.compile(r"T?[0-9]{2}(?::?[0-9]{2}(?::?[0-9]{2}(?:[.,][0-9]+)?)?)?(?:Z|[+-][0-9]{2}(?::?[0-9]{2}(?::?[0-9]{2}(?:\.[0-9]+)?)?)?)?\Z")
+# ISO-looking strings (compact forms, other separators/fraction lengths, offsets): whatever the
+# parser makes of them is unspecified; anything outside this alphabet is certainly not a time
+TIME_LENIENT = re.compile(r"T?[0-9]{2}[0-9:.,TZ+-]*\Z")
 YEAR_SHAPE = re.compile(r"([0-9]{4})\Z")
 DATE_SHAPE = re.compile(r"([0-9]{4})-([0-9]{2})-([0-9]{2})\Z")
-DATE_LENIENT = re.compile(r"[0-9]{1,8}(?:-[0-9]{1,2}-[0-9]{1,2})?\Z")
+DATE_LENIENT = re.compile(r"[0-9][0-9-]*\Z")
 URI_CANON = re.compile(r"(?:http|https|ftp)://[a-z0-9](?:[a-z0-9.-]*[a-z0-9])?(?::[0-9]{1,5})?"
                        r"(?:/[A-Za-z0-9._~/-]*)?(?:\?[A-Za-z0-9._~=&-]*)?(?:#[A-Za-z0-9._~-]*)?\Z")
 SCHEME = re.compile(r"([A-Za-z][A-Za-z0-9+.-]*):")
@@ -72,7 +74,9 @@ def in_range_verdict(v, lo, hi):
     # a decimal literal closer to the bound than half a unit in the last place of the
     # bound is read by binary floating point AS the bound: unspecified
     d = (v - hi) if v > hi else (lo - v)
-    if d <= max(abs(lo), abs(hi)) * Fraction(1, 2 ** 52):
+    bound = hi if v > hi else lo
+    half_ulp = Fraction(2) ** (math.frexp(float(abs(bound)))[1] - 54)      # half a unit in the last place of the bound
+    if d <= half_ulp:
         return LENIENT, "rounds-to-boundary"
     return REJECT, "out-of-range"
 
@@ -155,9 +159,9 @@ def classify(kind, s):
         rest = s[m.end():]
         if not rest.startswith("//") or rest[2:3] in ("", "/", "?", "#"):
             return REJECT, "malformed"          # no host
-        before_query = re.split(r"[?#]", rest, 1)[0]
-        if re.search(r"[\s<>\"{}|\\^`]", before_query):
-            return REJECT, "malformed"          # characters no URI host/path may contain
+        authority = re.split(r"[/?#]", rest[2:], 1)[0]
+        if re.search(r"[\s<>\"{}|\\^`]", authority):
+            return REJECT, "malformed"          # characters no host may contain
         return LENIENT, "lenient"
     raise ValueError(kind)
 
@@ -422,7 +426,6 @@ def run(ctx):
                     if not ccodes or ff == "OK" or (not crash and ff not in CONTENT_CLASSES):
                         ctx.fail(f"C02:accepted:{rname}:{cls}", f"content violating the constraints was not rejected with a content error: ff={ff} codes={codes}", rep)
                 else:
-                    key = (rname if section not in seen_sections else seen_sections[section], cls, content)
                     lenient_log.setdefault(cls, [])
                     if len(lenient_log[cls]) < 6 and content not in [x[0] for x in lenient_log[cls]]:
                         lenient_log[cls].append((content, "accepted" if not ccodes else "rejected"))
